@@ -6,6 +6,7 @@ import Homonim.Model.Geom
 import Homonim.Model.Blocks
 import Homonim.Model.WindowIO
 import Homonim.Model.Orient
+import Homonim.Model.Kernel
 open Homonim
 
 def ints (ts : List String) : Option (List Int) := ts.mapM String.toInt?
@@ -14,6 +15,64 @@ def w1 (w : Win1) : String := s!"{w.lo} {w.hi}"
 
 /-- rasterio order: col_off row_off width height -/
 def w2 (row col : Win1) : String := s!"{col.lo} {row.lo} {col.len} {row.len}"
+
+def parseRat (t : String) : Option Rat :=
+  match t.splitOn "/" with
+  | [a] => a.toInt?.map fun n => (n : Rat)
+  | [a, b] => do
+    let n ← a.toInt?
+    let d ← b.toNat?
+    if d = 0 then none else some (mkRat n d)
+  | _ => none
+
+def showRat (q : Rat) : String := if q.den = 1 then s!"{q.num}" else s!"{q.num}/{q.den}"
+def showORat : Option Rat → String
+  | some q => showRat q
+  | none => "_"
+
+/-- `_`-able list of rationals, row-major, as a lookup (value, validity) -/
+def parseGrid (ts : List String) : Option (Array (Option Rat)) :=
+  (ts.mapM fun t => if t = "_" then some none else (parseRat t).map some).map List.toArray
+
+def gridVal (a : Array (Option Rat)) (w : Nat) (r c : Nat) : Rat := ((a.getD (r * w + c) none).getD 0)
+def gridOk (a : Array (Option Rat)) (w : Nat) (r c : Nat) : Bool := (a.getD (r * w + c) none).isSome
+
+def parseModel : String → Option Model
+  | "gain" => some .gain
+  | "gain-blk-offset" => some .gainBlkOffset
+  | "gain-offset" => some .gainOffset
+  | _ => none
+
+/-- fit <model> <kh> <kw> <h> <w> <findR2> <thresh|_> <n0> <n1> S <h*w> R <h*w> [F <h*w>] -/
+def handleFit (toks : List String) : String :=
+  match toks with
+  | ms :: kh :: kw :: h :: w :: fr :: th :: n0 :: n1 :: "S" :: rest =>
+    match parseModel ms, kh.toNat?, kw.toNat?, h.toNat?, w.toNat?, fr.toNat?, parseRat n0, parseRat n1 with
+    | some model, some kh, some kw, some h, some w, some fr, some n0, some n1 =>
+      let n := h * w
+      let sT := rest.take n
+      let rest := rest.drop n
+      match rest with
+      | "R" :: rest =>
+        let rT := rest.take n
+        let rest := rest.drop n
+        let fT := match rest with
+          | "F" :: f => f.take n
+          | _ => List.replicate n "0"
+        let thresh := if th = "_" then some none else (parseRat th).map some
+        match parseGrid sT, parseGrid rT, parseGrid fT, thresh with
+        | some sa, some ra, some fa, some thresh =>
+          if sa.size ≠ n || ra.size ≠ n then "bad-args" else
+          let b : Block := { h := h, w := w, src := gridVal sa w, ref := gridVal ra w, sm := gridOk sa w, rm := gridOk ra w }
+          let cell (r c : Nat) : String :=
+            match fitAt b model kh kw (fr ≠ 0) thresh n0 n1 (fun r c => fa.getD (r * w + c) none) r c with
+            | none => "_"
+            | some p => s!"{showRat p.gain},{showRat p.offset},{showORat p.r2}"
+          " ".intercalate ((List.range h).flatMap fun r => (List.range w).map fun c => cell r c)
+        | _, _, _, _ => "bad-args"
+      | _ => "bad-args"
+    | _, _, _, _, _, _, _, _ => "bad-args"
+  | _ => "bad-args"
 
 def handle (toks : List String) : String :=
   match toks with
@@ -88,6 +147,14 @@ def handle (toks : List String) : String :=
     | some [sn, sc, rn, rc, ps] =>
       let r := sameOrientationCrs ⟨sn ≠ 0, sc.toNat⟩ ⟨rn ≠ 0, rc.toNat⟩ (ps ≠ 0)
       s!"{if r.1.northUp then 1 else 0} {r.1.crs} {if r.2.northUp then 1 else 0} {r.2.crs}"
+    | _ => "bad-args"
+  | "fit" :: rest => handleFit rest
+  | "kshape" :: rest =>
+    match rest with
+    | [ms, kh, kw] =>
+      match parseModel ms, kh.toInt?, kw.toInt? with
+      | some m, some kh, some kw => if validKernelShape kh kw m then "1" else "0"
+      | _, _, _ => "bad-args"
     | _ => "bad-args"
   | "covers" :: rest =>
     match ints rest with
